@@ -22,7 +22,8 @@ META = {
               '1 arbitrary scalar value, port 0..65535, user name of 1 '
               'scalar value symbolic; default version symbolic over the '
               'allowed set; allowed-version configurations enumerated '
-              '(singleton / pair / names / prefix of 20; thorough: all 250); '
+              '(singleton / pair / names / prefix of 20; thorough: all 250 for '
+              'the version and empty-object replies); '
               'reply shapes {version+protocol, no version, no protocol, '
               'empty object, immediate close}; plain status query: handler '
               'modes {default, custom, disabled} x ping {default, custom, '
